@@ -68,6 +68,25 @@ def build_harness():
     _built = True
 
 
+_built_release = False
+
+
+def build_harness_release():
+    """The same drivers compiled in the release profile (no debug assertions, no overflow checks): what users ship."""
+    global _built_release
+    if _built_release:
+        return
+    build_harness()
+    t0 = time.time()
+    p = subprocess.run(["cargo", "build", "--offline", "-q", "--release"], cwd=HARNESS_DIR, env=cargo_env(),
+                       stdout=subprocess.PIPE, stderr=subprocess.STDOUT, text=True)
+    if p.returncode != 0:
+        sys.stderr.write(p.stdout[-6000:])
+        raise ToolError("harness does not build in the release profile against the current /repo tree")
+    log("release harness built in %.1fs" % (time.time() - t0))
+    _built_release = True
+
+
 LIB_CRATES = ["paseto-core", "paseto-json", "paseto-v1", "paseto-v2", "paseto-v3", "paseto-v3-aws-lc", "paseto-v4", "paseto-v4-sodium"]
 
 
@@ -86,14 +105,16 @@ def build_libs():
         raise ToolError("the library crates do not build from the current /repo tree")
 
 
-def harness(args, timeout=3600, env_extra=None, check=True, stdin=None):
+def harness(args, timeout=3600, env_extra=None, check=True, stdin=None, release=False):
     build_harness()
+    if release:
+        build_harness_release()
     env = dict(os.environ)
     if env_extra:
         env.update(env_extra)
     t0 = time.time()
     try:
-        p = subprocess.run([HARNESS_BIN] + args, stdout=subprocess.PIPE, stderr=subprocess.PIPE, text=True,
+        p = subprocess.run([HARNESS_BIN.replace(os.sep + "debug" + os.sep, os.sep + "release" + os.sep) if release else HARNESS_BIN] + args, stdout=subprocess.PIPE, stderr=subprocess.PIPE, text=True,
                            timeout=timeout, env=env, input=stdin)
     except subprocess.TimeoutExpired:
         raise ToolError("harness timed out: %s" % " ".join(args))
